@@ -100,6 +100,11 @@ def check_C01(run):
     ml = multi_lines(run, pool, 1500 if thorough else 120)
     replay_validate(run, ml, ["conn", "-multi"], "ConnTrace", conn_trace_cfg('{"c1", "c2", "c3"}'),
                     "C01 three concurrent connections, each its own scenario", nontrivial=nt)
+    # many connections at once (ungated): every connection's events must still be explained independently
+    k = 5
+    ml = multi_lines(run, pool, 300, k=k) if thorough else []
+    replay_validate(run, ml, ["conn", "-multi"], "ConnTrace", conn_trace_cfg("{" + ", ".join('"c%d"' % (i + 1) for i in range(k)) + "}"),
+                    "C01 %d concurrent connections, each its own scenario" % k, nontrivial=nt, shards=8, tlc_timeout=1200)
     run.write_evidence("model_checking",
         "scenarios = TLC-enumerated sets F1/F2/F3 of spec/ConnScen.tla (quick: seeded sample); non-trivial = trace has at least one dispatch to a registered handler and one reply attempt",
         exhaustive=thorough,
